@@ -146,7 +146,7 @@ def inv_j1(ll, highr, highi, g0, g1, o_dim, h_dim, w_dim, mode):
     inverse transform and the backward pass of the forward transform.
     """
     if highr is None or highr.shape == torch.Size([]):
-        y = rowfilter(colfilter(ll, g0), g0)
+        y = rowfilter(colfilter(ll, g0, mode), g0, mode)
     else:
         # Get the double sampled bandpass coefficients
         lh, hl, hh = orientations_to_highs(highr, highi, o_dim)
@@ -181,7 +181,7 @@ def inv_j1_rot(ll, highr, highi, g0, g1, g2, o_dim, h_dim, w_dim, mode):
     inverse transform and the backward pass of the forward transform.
     """
     if highr is None or highr.shape == torch.Size([]):
-        y = rowfilter(colfilter(ll, g0), g0)
+        y = rowfilter(colfilter(ll, g0, mode), g0, mode)
     else:
         # Get the double sampled bandpass coefficients
         lh, hl, hh = orientations_to_highs(highr, highi, o_dim)
